@@ -49,6 +49,9 @@ def Param.toDVal : Param → DVal
 theorem toParam_toDVal (slot : String) (p : Param) : toParam slot p.toDVal = some p := by
   cases p <;> rfl
 
+theorem bump_toDVal (slot : String) (p : Param) (st : St) : bump slot p.toDVal st = st := by
+  cases p <;> rfl
+
 /-- a named plain parameter round-trips through the table -/
 theorem decodeBase_named {env : Env} {st : St} (h : Inv env st) (n : String) (val : Option Dbl)
     (hn : n ≠ "") (he : env n = some val) :
@@ -131,7 +134,7 @@ theorem decSlots_encode {env : Env} (ev : String → List Sub → Dbl) :
       (fun x hx => hw x (by simp [hx]))
     refine ⟨st2, ?_, h2⟩
     simp only [List.map_cons, decSlots, List.head?_cons, Option.join_some, e1, toParam_toDVal,
-      List.tail_cons, e2]
+      bump_toDVal, List.tail_cons, e2]
 
 theorem dupExpr_irrelevant (ps : List Param) : (!Cfg.fixed.exprFix && dupExpr ps) = false := by
   simp [Cfg.fixed]
@@ -188,6 +191,31 @@ theorem decMat_encMat_num (rows : List (List Cx)) (h : (Mat.num rows).WFnum) :
   simp only [encMat, decMat, hc, hr, length_flatten_const _ _ hall, if_true]
   rw [chunkGo_flatten _ hpos _ hall]
 
+theorem decMat_encMat_rect (m : Mat) (h : m.WFrect) : decMat (encMat m) = some m := by
+  cases m with
+  | num rows =>
+    obtain ⟨hne, n, hn, hall⟩ := h
+    obtain ⟨r0, rest, rfl⟩ : ∃ r0 rest, rows = r0 :: rest := by
+      cases rows with
+      | nil => exact absurd rfl hne
+      | cons a b => exact ⟨a, b, rfl⟩
+    have h0 : r0.length = n := hall r0 (by simp)
+    have hc : (rowsCols (r0 :: rest)).2 = n := by simp [rowsCols, h0]
+    have hr : (rowsCols (r0 :: rest)).1 = (r0 :: rest).length := rfl
+    simp only [encMat, decMat, hc, hr, length_flatten_const _ _ hall, if_true]
+    rw [chunkGo_flatten _ hn _ hall]
+  | sym rows =>
+    obtain ⟨hne, n, hn, hall⟩ := h
+    obtain ⟨r0, rest, rfl⟩ : ∃ r0 rest, rows = r0 :: rest := by
+      cases rows with
+      | nil => exact absurd rfl hne
+      | cons a b => exact ⟨a, b, rfl⟩
+    have h0 : r0.length = n := hall r0 (by simp)
+    have hc : (rowsCols (r0 :: rest)).2 = n := by simp [rowsCols, h0]
+    have hr : (rowsCols (r0 :: rest)).1 = (r0 :: rest).length := rfl
+    simp only [encMat, decMat, hc, hr, length_flatten_const _ _ hall, if_true]
+    rw [chunkGo_flatten _ hn _ hall]
+
 /-! ### components -/
 
 theorem Comp.norm_size (c : Comp) : c.norm.size = c.size := by
@@ -214,7 +242,7 @@ theorem decLeaf_encode {env : Env} (ev : String → List Sub → Dbl) {st : St} 
         obtain ⟨st2, e2, h2⟩ := decSlot_encode ev h1 phi (hw phi (by simp))
         refine ⟨st2, ?_, h2⟩
         simp only [decLeaf, encSlots, Kind.wire, ht, if_true, List.tail_cons, List.head?_cons,
-          Option.join_some, e1, e2, toParam_toDVal, hx]
+          Option.join_some, e1, e2, toParam_toDVal, bump_toDVal, hx]
         cases me <;> simp [Param.norm, Param.toDVal, toParam]
       · obtain ⟨st2, e2, h2⟩ := decSlot_encode ev h phi (hw phi (by simp))
         refine ⟨st2, ?_, h2⟩
@@ -228,7 +256,7 @@ theorem decLeaf_encode {env : Env} (ev : String → List Sub → Dbl) {st : St} 
         have hA : ∀ X : Option PbParam, decSlot st ([X, none].tail.head?.join) = some (.none_, st) :=
           fun _ => rfl
         simp only [decLeaf, encSlots, Kind.wire, ht0, Bool.false_eq_true, if_false, hA,
-          List.head?_cons, Option.join_some, e2, toParam_toDVal, hx]
+          List.head?_cons, Option.join_some, e2, toParam_toDVal, bump_toDVal, hx]
         rfl
   | wp =>
     obtain ⟨st', e, h'⟩ := decSlots_encode ev Kind.wp.slots ps st h hl hw
